@@ -40,7 +40,7 @@ theorem mrs_accepts_iff (o0 : Reg) (imm : BitVec 64) (ws : List (BitVec 32)) :
     repeat (split at h <;> try (simp [invalidInstruction, invalidPhysId, invalidImmediate] at h))
     simp [ok1] at h
     simp_all
-    omega
+    try omega
   · rintro ⟨h1, h2, h3, h4, h5⟩
     have : ¬ imm.toNat > 0xFFFF := by omega
     simp [h1, h2, this, h4, h5, ok1]
@@ -55,7 +55,7 @@ theorem msrReg_accepts_iff (imm : BitVec 64) (o1 : Reg) (ws : List (BitVec 32)) 
     repeat (split at h <;> try (simp [invalidInstruction, invalidPhysId, invalidImmediate] at h))
     simp [ok1] at h
     simp_all
-    omega
+    try omega
   · rintro ⟨h1, h2, h3, h4, h5⟩
     have : ¬ imm.toNat > 0xFFFF := by omega
     simp [h1, h2, this, h4, h5, ok1]
@@ -72,5 +72,102 @@ theorem msrReg_refuses_bad_id (imm : BitVec 64) (o1 : Reg) (hbad : imm.toNat > 0
   intro ws h
   have := (msrReg_accepts_iff imm o1 ws).mp h
   omega
+
+/-! ### end to end -/
+
+def isSysregForm (f : Form) (regFirst : Bool) (n0 : String) (opc : BitVec 32) : Bool :=
+  f.ops == (if regFirst then [.gp .x64 n0 false, .immU "sysreg" 1] else [.immU "sysreg" 1, .gp .x64 n0 false]) &&
+  f.fields.filter (·.name == n0) == [⟨n0, [⟨0, 0, 5⟩]⟩] &&
+  f.fields.filter (·.name == "sysreg") == [⟨"sysreg", [⟨5, 0, 16⟩]⟩] &&
+  f.freeFields.isEmpty && decide (f.mask < 2 ^ 32) && decide (f.value < 2 ^ 32) &&
+  (BitVec.ofNat 32 f.mask &&& 0x000FFFFF#32 == 0#32) && (opc &&& BitVec.ofNat 32 f.mask == BitVec.ofNat 32 f.value)
+
+theorem rows_mrs_msr_have_forms :
+    ((formsNamed "mrs").any fun f => isSysregForm f true "Rd" 0xD5300000#32) = true ∧
+    ((formsNamed "msr").any fun f => isSysregForm f false "Rs" 0xD5100000#32) = true := by
+  constructor <;> decide +kernel
+
+theorem sysreg_word (opc : BitVec 32) (f : Form) (n0 : String) (o : Reg) (imm : BitVec 64) (pc : BitVec 64)
+    (hc : opc &&& 0x001FFFFF#32 = 0x00100000#32)
+    (hR : f.fields.filter (·.name == n0) = [⟨n0, [⟨0, 0, 5⟩]⟩]) (hS : f.fields.filter (·.name == "sysreg") = [⟨"sysreg", [⟨5, 0, 16⟩]⟩])
+    (hmlt : f.mask < 2 ^ 32) (hvlt : f.value < 2 ^ 32) (hmk : BitVec.ofNat 32 f.mask &&& 0x000FFFFF#32 = 0#32)
+    (hv : opc &&& BitVec.ofNat 32 f.mask = BitVec.ofNat 32 f.value)
+    (h3 : imm.toNat ≤ 0xFFFF) (h4 : (imm.toNat >>> 15) % 2 = 1) :
+    let w := opc ||| addImm imm.toNat 5 ||| addReg o.id 0
+    w.toNat &&& f.mask = f.value ∧
+    ({ fields := f.fields, w := w.toNat, pc := pc, name := f.name } : Ctx).get n0 = some (o.id % 32) ∧
+    ({ fields := f.fields, w := w.toNat, pc := pc, name := f.name } : Ctx).get "sysreg" = some imm.toNat := by
+  intro w
+  have hidu : (BitVec.ofNat 32 imm.toNat).ult 0x10000#32 = true := by simp [BitVec.ult, BitVec.toNat_ofNat]; omega
+  have hidn : (BitVec.ofNat 32 imm.toNat).toNat = imm.toNat := by simp [BitVec.toNat_ofNat]; omega
+  have hb : ((BitVec.ofNat 32 imm.toNat) >>> 15) &&& 1#32 = 1#32 := by
+    apply BitVec.eq_of_toNat_eq
+    have := toNat_fieldN (BitVec.ofNat 32 imm.toNat) 15 1 (by decide)
+    rw [hidn, show BitVec.ofNat 32 (2 ^ 1 - 1) = 1#32 from rfl] at this
+    rw [← this]
+    simpa using h4
+  have h15 : BitVec.ofNat 32 imm.toNat &&& 0x8000#32 = 0x8000#32 := by
+    generalize BitVec.ofNat 32 imm.toNat = I at hb ⊢
+    bv_decide
+  obtain ⟨k1, k2, k3⟩ := sysreg_fields opc (BitVec.ofNat 32 imm.toNat) (BitVec.ofNat 32 (o.id % 32)) (BitVec.ofNat 32 f.mask) (BitVec.ofNat 32 f.value)
+    hc hmk hv hidu h15 (ofNat_mod32_ult _)
+  have hw : w = opc ||| (BitVec.ofNat 32 imm.toNat <<< 5) ||| (BitVec.ofNat 32 (o.id % 32) <<< 0) := by simp [w, addImm, addReg]
+  rw [hw]
+  generalize (opc ||| (BitVec.ofNat 32 imm.toNat <<< 5) ||| (BitVec.ofNat 32 (o.id % 32) <<< 0)) = ww at *
+  have t : ww.toNat &&& f.mask = f.value := by
+    rw [toNat_and_mask ww f.mask hmlt, k1]; simp [BitVec.toNat_ofNat, Nat.mod_eq_of_lt hvlt]
+  have f0 : (ww.toNat >>> 0) % 2 ^ 5 = o.id % 32 := by rw [toNat_field, k2, ofNat_mod32_toNat]
+  have f5 : (ww.toNat >>> 5) % 2 ^ 16 = imm.toNat := by
+    rw [toNat_fieldN ww 5 16 (by decide), show (BitVec.ofNat 32 (2 ^ 16 - 1)) = 0xFFFF#32 from rfl, k3, hidn]
+  have g0 := ctx_get_single f.fields ww.toNat pc f.name n0 0 hR
+  have g5 := ctx_get_one f.fields ww.toNat pc f.name "sysreg" 5 16 hS
+  rw [f0] at g0; rw [f5] at g5
+  exact ⟨t, g0, g5⟩
+
+/-- **End-to-end, mrs Xt, <sysreg>** - every system register id -/
+theorem mrs_end_to_end (o0 : Reg) (imm : BitVec 64) (p : Nat) (wf0 : GpWellFormed o0) (ws : List (BitVec 32)) (pc : BitVec 64)
+    (h : emitMrs o0 imm = .ok ws) : judge (formsNamed "mrs") "mrs" [.reg o0, .imm imm p] pc (.ok ws) = .full := by
+  obtain ⟨h1, h2, h3, h4, h5⟩ := (mrs_accepts_iff o0 imm ws).mp h
+  have hany := rows_mrs_msr_have_forms.1
+  rw [List.any_eq_true] at hany
+  obtain ⟨f, hfmem, hform⟩ := hany
+  simp only [isSysregForm, if_true, Bool.and_eq_true, beq_iff_eq, decide_eq_true_eq] at hform
+  obtain ⟨⟨⟨⟨⟨⟨⟨hops, hR⟩, hS⟩, hfree⟩, hmlt⟩, hvlt⟩, hmk⟩, hv⟩ := hform
+  obtain ⟨t, g0, g5⟩ := sysreg_word 0xD5300000#32 f "Rd" o0 imm pc (by decide) hR hS hmlt hvlt hmk hv h3 h4
+  have hnum := checked_id_designates o0 idZR (Or.inr rfl) h2
+  rw [show (idZR == idSP) = false by decide] at hnum
+  have g : gpOk .x64 false o0 := ⟨by simpa [gpWidthOk, Reg.isGp64] using h1, wf0.1, wf0.2, hnum⟩
+  have m0 := matchOp_gp _ .x64 "Rd" false o0 [.imm imm p] g0 g
+  have m1 := matchOp_immU1 { fields := f.fields, w := _, pc := pc, name := f.name } "sysreg" imm p [] g5
+  have hfull : f.isPartial = false := by simp [Form.isPartial, hops, OpSpec.isPartial, hfree]
+  subst h5
+  apply judge_full_of_any_name _ _ _ _ _ (by decide)
+  rw [List.any_eq_true]
+  refine ⟨f, hfmem, ?_⟩
+  simp only [hfull, Bool.not_false, Bool.true_and, describes, Form.matchesTemplate, t, hops, matchOps, m0, m1]
+  simp
+
+/-- **End-to-end, msr <sysreg>, Xt** - every system register id -/
+theorem msrReg_end_to_end (imm : BitVec 64) (p : Nat) (o1 : Reg) (wf1 : GpWellFormed o1) (ws : List (BitVec 32)) (pc : BitVec 64)
+    (h : emitMsrReg imm o1 = .ok ws) : judge (formsNamed "msr") "msr" [.imm imm p, .reg o1] pc (.ok ws) = .full := by
+  obtain ⟨h1, h2, h3, h4, h5⟩ := (msrReg_accepts_iff imm o1 ws).mp h
+  have hany := rows_mrs_msr_have_forms.2
+  rw [List.any_eq_true] at hany
+  obtain ⟨f, hfmem, hform⟩ := hany
+  simp only [isSysregForm, Bool.false_eq_true, if_false, Bool.and_eq_true, beq_iff_eq, decide_eq_true_eq] at hform
+  obtain ⟨⟨⟨⟨⟨⟨⟨hops, hR⟩, hS⟩, hfree⟩, hmlt⟩, hvlt⟩, hmk⟩, hv⟩ := hform
+  obtain ⟨t, g0, g5⟩ := sysreg_word 0xD5100000#32 f "Rs" o1 imm pc (by decide) hR hS hmlt hvlt hmk hv h3 h4
+  have hnum := checked_id_designates o1 idZR (Or.inr rfl) h2
+  rw [show (idZR == idSP) = false by decide] at hnum
+  have g : gpOk .x64 false o1 := ⟨by simpa [gpWidthOk, Reg.isGp64] using h1, wf1.1, wf1.2, hnum⟩
+  have m0 := matchOp_immU1 { fields := f.fields, w := _, pc := pc, name := f.name } "sysreg" imm p [.reg o1] g5
+  have m1 := matchOp_gp _ .x64 "Rs" false o1 [] g0 g
+  have hfull : f.isPartial = false := by simp [Form.isPartial, hops, OpSpec.isPartial, hfree]
+  subst h5
+  apply judge_full_of_any_name _ _ _ _ _ (by decide)
+  rw [List.any_eq_true]
+  refine ⟨f, hfmem, ?_⟩
+  simp only [hfull, Bool.not_false, Bool.true_and, describes, Form.matchesTemplate, t, hops, matchOps, m0, m1]
+  simp
 
 end AsmjitVerif.C02
